@@ -600,9 +600,16 @@ pub fn exec(op: &str, a: &[&str]) -> Option<String> {
             Ok(s) => format!("ok {}", str2hex(&s)),
             Err(_) => "err".to_string(),
         }),
-        "djsonparse" => res_d(serde_json::from_str::<Duration>(&hex2str(a[0]))),
+        // every serde_json entry point (see json_all) must give the same answer
+        "djsonparse" => match super::json_all::<Duration>(&hex2str(a[0])) {
+            Ok(r) => res_d(r.ok_or(())),
+            Err(()) => Some("entry-points-differ".to_string()),
+        },
         "djsonrt" => match serde_json::to_string(&s2d(a[0])) {
-            Ok(s) => res_d(serde_json::from_str::<Duration>(&s)),
+            Ok(s) => match super::json_all::<Duration>(&s) {
+                Ok(r) => res_d(r.ok_or(())),
+                Err(()) => Some("entry-points-differ".to_string()),
+            },
             Err(_) => Some("err".to_string()),
         },
         "ehms" => {
